@@ -388,30 +388,36 @@ NeedLen(np) ==
 WakeList ==
     SelectSeq([i \in 1..Len(regs) |-> IF regs[i].used THEN regs[i].awt ELSE 0], LAMBDA x : x # 0)
 
-PushLk(np, q1) ==
+(* ... without the wake-up list: the thread-structured wrapper keeps one list per publishing thread *)
+PushLkCore(np, q1) ==
     /\ pos' = np
     /\ q' = SubSeq(q1, 1, Min2(Min2(NeedLen(np), MaxLen), Len(q1)))
-    /\ wakeq' = WakeList
     /\ regs' = [i \in 1..Len(regs) |->
                   IF regs[i].used /\ regs[i].awt # 0
                     THEN [regs[i] EXCEPT !.awt = 0, !.woken = FixCopyOfWoken]
                     ELSE regs[i]]
 
+PushLk(np, q1) == PushLkCore(np, q1) /\ wakeq' = WakeList
+
 (* publish(x) / publish(begin,end), publisher.h:109-128: n values pos..pos+n-1, newest in front *)
-PushCS(n) ==
-    /\ pubAlive /\ ~closed /\ PubFree
+PushBody(n) ==
+    /\ pubAlive /\ ~closed
     /\ pos - 1 + n <= MaxPub
-    /\ PushLk(pos + n, [i \in 1..n |-> pos + n - i] \o q)
+    /\ PushLkCore(pos + n, [i \in 1..n |-> pos + n - i] \o q)
     /\ UNCHANGED <<nextFree, closed, pubAlive, pc, hnd, mode, recv, res, wakes, start, oow, wasKicked, left, plan, njoin, nkick>>
 
+PushCS(n) == PubFree /\ PushBody(n) /\ wakeq' = WakeList
+
 (* publisher::close() / ~publisher(), publisher.h:130-135, 351-359 *)
-Close(how) ==
-    /\ pubAlive /\ PubFree
+CloseBody(how) ==
+    /\ pubAlive
     /\ how = "close" => ~closed
     /\ pubAlive' = (how = "close")
-    /\ IF closed THEN UNCHANGED <<pos, q, wakeq, regs, closed>>
-                 ELSE closed' = TRUE /\ PushLk(pos, q)
+    /\ IF closed THEN UNCHANGED <<pos, q, regs, closed>>
+                 ELSE closed' = TRUE /\ PushLkCore(pos, q)
     /\ UNCHANGED <<nextFree, pc, hnd, mode, recv, res, wakes, start, oow, wasKicked, left, plan, njoin, nkick>>
+
+Close(how) == PubFree /\ CloseBody(how) /\ wakeq' = IF closed THEN wakeq ELSE WakeList
 
 (* publisher::kick(&sub) / sub.kick_me(), publisher.h:136-139, 276-288 *)
 KickCS(s, via) ==
